@@ -582,7 +582,9 @@ func reportLoadFailure(prop, tier string, seed int, err error, t0 time.Time) int
 	}
 	os.MkdirAll(filepath.Join(verifDir, "evidence"), 0o755)
 	d2, _ := json.MarshalIndent(ev, "", " ")
-	os.WriteFile(filepath.Join(verifDir, "evidence", prop+".json"), d2, 0o644)
+	if os.Getenv("VERIF_NO_EVIDENCE") == "" {
+		os.WriteFile(filepath.Join(verifDir, "evidence", prop+".json"), d2, 0o644)
+	}
 	fmt.Printf("VIOLATION property=%s replay=%s all pinned obligations undecidable: tree does not load no-failing-input-found\n", prop, rp)
 	return 1
 }
